@@ -306,6 +306,72 @@ Proof.
     f_equal. destruct I; assumption.
 Qed.
 
+(* the pure string and math built-ins (Sem.pure_builtin) *)
+Lemma sim_alloc_strs f (l : list str) :
+  sim f lrels (mapM (fun p => alloc (HStr p)) l) (mapM (fun p => alloc (HStr p)) l).
+Proof.
+  eapply (sim_mapM (eqrel str) lrel); [ | apply ext_refl | apply listrel_eq_refl].
+  intros f' E' k1 k2 K. unfold eqrel in K. subst k2. prim.
+Qed.
+Lemma sim_load_nums f a1 a2 : lrels f a1 a2 ->
+  sim f (eqrel (list float)) (mapM load_num a1) (mapM load_num a2).
+Proof.
+  intro A. eapply sim_conseq; [|eapply (sim_mapM lrel (eqrel float)); [ | apply ext_refl | exact A]].
+  - intros f' x y H. apply listrel_eq in H. exact H.
+  - intros f' E' k1 k2 K. apply sim_load_num. exact K.
+Qed.
+
+Lemma sim_pure_builtin name f a1 a2 :
+  lrels f a1 a2 ->
+  match pure_builtin name a1, pure_builtin name a2 with
+  | Some m1, Some m2 => sim f (optrel lrel) m1 m2
+  | None, None => True
+  | _, _ => False
+  end.
+Proof.
+  intros A. unfold pure_builtin.
+  repeat match goal with
+         | |- match (if ?c then _ else _) with _ => _ end =>
+             destruct c; [first [solve [ssolve] | idtac]|]
+         end.
+  3: exact I.
+  - (* split *)
+    sargs; try prim. sbind sub1; deq. sbind sub1; deq.
+    sbind ltac:(apply sim_alloc_strs). sbind sub1. apply sim_ret. assumption.
+  - (* hsl *)
+    sbind ltac:(apply sim_load_nums; assumption). deq. ssolve.
+Qed.
+
+(* unwrapBasicvalue over the argument cells of sprintf / printf *)
+Lemma sim_fargs f r1 r2 : lrels f r1 r2 ->
+  sim f (eqrel (list Builtins.farg))
+    (mapM (fun a => let* v := unwrap_any a in
+                    match v with
+                    | HNum x => ret (Builtins.FNum x)
+                    | HStr x => ret (Builtins.FStr x)
+                    | HBool b => ret (Builtins.FBool b)
+                    | _ => let* x := show_str a in ret (Builtins.FStr x)
+                    end) r1)
+    (mapM (fun a => let* v := unwrap_any a in
+                    match v with
+                    | HNum x => ret (Builtins.FNum x)
+                    | HStr x => ret (Builtins.FStr x)
+                    | HBool b => ret (Builtins.FBool b)
+                    | _ => let* x := show_str a in ret (Builtins.FStr x)
+                    end) r2).
+Proof.
+  intro A. eapply sim_conseq; [|eapply (sim_mapM lrel (eqrel Builtins.farg)); [ | apply ext_refl | exact A]].
+  - intros f' x y H. apply listrel_eq in H. exact H.
+  - intros f' E' k1 k2 K. sbind ltac:(apply sim_unwrap_any; exact K).
+    match goal with H : hvrel _ _ _ |- _ => destruct H end; try prim;
+      (sbind ltac:(apply sim_show_str; eassumption); deq; prim).
+Qed.
+
+Ltac sprintf_tac :=
+  sargs; try prim; sbind sub1;
+  match goal with H : hvrel _ _ _ |- _ => destruct H end; try prim;
+  sbind ltac:(apply sim_fargs; assumption); deq; ssolve.
+
 Lemma sim_builtin name f e1 e2 a1 a2 :
   envrel f e1 e2 -> lrels f a1 a2 ->
   match builtin name e1 a1, builtin name e2 a2 with
@@ -317,9 +383,9 @@ Proof.
   intros E A. unfold builtin.
   repeat match goal with
          | |- match (if ?c then _ else _) with _ => _ end =>
-             destruct c; [try apply sim_read_body; solve [ssolve]|]
+             destruct c; [first [apply sim_read_body | solve [ssolve] | solve [sprintf_tac]]|]
          end.
-  exact I.
+  apply sim_pure_builtin; assumption.
 Qed.
 
 (* ---------- the test builtin ---------- *)
